@@ -249,7 +249,14 @@ def plans(tier, seed):
         P.append((('tensor_other', (20, 'never'), N, p, seed),
                   red + ['uup4', 'udown4', 'eweyl_u_down4', 'bweyl_u_down4',
                          'h:null_vector_base'], 2))
+        # non-finite data (a NaN-masked point): helpers that 'clean' their
+        # argument must not write through to arrays handed out earlier
+        P.append((('excised', (20, 'never'), N, p, seed),
+                  ['Weyl_Psi', 'Psi4_lm', 'st_Weyl_down4', 'Weyl_invariants',
+                   'gammadet', 'Ktrace', 's_RicciS', 'Hamiltonian',
+                   'gammaup3', 'Kretschmann', 'h:s_curl'], 2))
     else:
+        P.append((('excised', (20, 'never'), N, p, seed), full, 2))
         for incfg in ('tensor', 'components', 'fluid', 'rho', 'partial',
                       'tensor_other'):
             for cconf in ((20, 'never'), (3, 'mid'), (1, 'always')):
